@@ -391,6 +391,8 @@ let c03 op a =
               else if List.length tws <> nts then "(bad-arg-count)"
               else if List.for_all2 (fun tw t -> eq_dec (ew @ env) tw t) tws ts then "(ok)" else "(bad-types)"
           | Err _ -> "(model-rejects-message)" | Panic -> "(panic)" | OutOfFuel -> "(skip)"))
+  | "m.c03.encode", [e; ts; vs] ->
+      (match enc_message (env_of e) (vals_of vs) (tys_of ts) with Some b -> hex b | None -> "(err)")
   | "c03.wf_untyped", [vs; b] ->
       let vs = vals_of vs in
       if b = "err" then "(err)" else
